@@ -66,6 +66,16 @@ def no_projections(cx, b, tparam, key):
     cx.ob('KIND', f'{key}:whole-transform', not bad, f'{key}: the transform is applied as a whole (no .rotation / .translation / inverse of it)', where=b.file, found=', '.join(bad) if bad else None)
 
 
+def plane_transform_rule(cx):
+    """shared with C13 (sectioning / splitting commutes with a rigid motion of mesh and plane together)"""
+    b = cx.fn('geom3::plane3::Plane3::transform_by')
+    if b:
+        cx.expect('KIND', 'Plane3::transform_by', cx.retval(b),
+                  '(call *Plane3::from (call *SurfacePoint::transformed (call *SurfacePoint::new (call T::into (call Matrix::mul (self normal) (self d))) (self normal)) (param iso)))',
+                  'the plane is re-derived from its representative point normal*d and its normal, both moved by the same isometry', where=b.file)
+        no_projections(cx, b, 'iso', 'Plane3::transform_by')
+
+
 def run(cx):
     # crate-wide: a position enters a dot product only inside a difference of projections (or as the plane offset)
     E.posdot(cx, floor=5)
@@ -125,12 +135,7 @@ def run(cx):
         tv = b.calls('TriMesh::transform_vertices')
         cx.ob('KIND', 'Mesh::transform', len(tv) == 1 and match('(param transform)', cx.arg(tv[0], 1)) is not None, 'Mesh::transform moves every vertex by the given isometry (parry transform_vertices)', where=b.file)
         no_projections(cx, b, 'transform', 'Mesh::transform')
-    b = cx.fn('geom3::plane3::Plane3::transform_by')
-    if b:
-        cx.expect('KIND', 'Plane3::transform_by', cx.retval(b),
-                  '(call *Plane3::from (call *SurfacePoint::transformed (call *SurfacePoint::new (call T::into (call Matrix::mul (self normal) (self d))) (self normal)) (param iso)))',
-                  'the plane is re-derived from its representative point normal*d and its normal, both moved by the same isometry', where=b.file)
-        no_projections(cx, b, 'iso', 'Plane3::transform_by')
+    plane_transform_rule(cx)
     b = cx.fn('geom2::curve2::Curve2::transformed_by')
     if b:
         cx.expect('KIND', 'Curve2::transformed_by', cx.retval(b),
